@@ -6,14 +6,14 @@ const TAGS = {
   div: { open: 'div' }, Comp: { open: 'Comp' }, member: { open: 'a.b' }, member3: { open: 'a.b.c' }, thisx: { open: 'this.x', method: true },
   nstag: { open: 'ns:tag' }, svgns: { open: 'svg:rect' }, dashed: { open: 'a-b' }, frag: { open: '' },
 };
-const ATTR_NAMES = ['{...x}', 'p', 'ns:name', 'v-foo', 'vFoo', 'v-foo:arg_mod', 'v-foo_a-b', 'v-', 'v-_lazy', 'v-\u00e9t\u00e9', 'v\u00c9', 'v--x', 'v-model', 'v-model:a', 'v-model_m', 'v-models', 'v-slots', 'v-html', 'v-text', 'v-show', 'on', 'class', 'key', 'ref'];
+const ATTR_NAMES = ['{...x}', 'p', 'ns:name', 'v-foo', 'vFoo', 'v-foo:arg_mod', 'v-foo_a-b', 'v-foo_ok_a-b', 'v-foo_a-b_ok_2x', 'v-model_ok_a-b', 'v-', 'v-_lazy', 'v-\u00e9t\u00e9', 'v\u00c9', 'v--x', 'v-model', 'v-model:a', 'v-model_m', 'v-models', 'v-slots', 'v-html', 'v-text', 'v-show', 'on', 'class', 'key', 'ref'];
 const ATTR_VALUES = {
   absent: '', str: '="s"', strEmpty: '=""', strNL: '="a\n  b"', strBsl: '="a\\b\\"', strSq: "='a\"b'", x: '={x}', arrEmpty: '={[]}', arrHole: '={[,]}', arrHole2: '={[, x]}', arr1: '={[x]}', arrSpread: '={[...x]}', arrArg: "={[x, 'a']}",
-  arrMods: "={[x, ['m']]}", arrOdd: "={[x, y, ['a-b', 'c d', '1x']]}", arr2d: "={[[x], [y, 'n']]}", arr2dOdd: '={[[], [, x], x, [...x]]}', arrModsOdd: '={[x, [y, ...x, 1]]}',
+  arrMods: "={[x, ['m']]}", arrOdd: "={[x, y, ['a-b', 'c d', '1x']]}", arr2d: "={[[x], [y, 'n']]}", arr2dOdd: '={[[], [, x], x, [...x]]}', arrModsOdd: '={[x, [y, ...x, 1]]}', arrModsMixed: "={[x, 'a', ['a-b', 'c', '1x', 'ok']]}", arrModsMixed2: "={[x, ['ok', 'x.y']]}",
   member: '={a.b}', index: '={a[0]}', optchain: '={a?.b}', optindex: '={a?.[0]}', optcall: '={a?.()}', call: '={a()}', paren: '={(x)}', thisMember: '={this.x}', assignExpr: '={x = y}',
   el: '=<b/>', frag: '=<></>', elNested: '=<b v-html=<i/> />', obj: '={{ a: x }}', fn: '={() => x}', num: '={1}', tplStr: '={`a${x}`}',
 };
-const CHILDREN = { none: '', text: 'txt', empty: '{}', cmt: '{/* c */}', el: '<i/>', nsel: '<ns:c/>', spread: '{...x}', member: '<a.b/>', str: '{"s"}' };
+const CHILDREN = { spreadJsx: '{...[<i/>, <ns:c/>]}', exprJsx: '{[<i/>, x && <a.b/>]}', none: '', text: 'txt', empty: '{}', cmt: '{/* c */}', el: '<i/>', nsel: '<ns:c/>', spread: '{...x}', member: '<a.b/>', str: '{"s"}' };
 const PRAGMAS = {
   none: '', block: '/* @jsx h */\n', jsdoc: '/** @jsx h */\n', words: '/* @jsx h more words */\n', importSource: '/** @jsxImportSource vue */\n', runtime: '/* @jsxRuntime automatic */\n',
   frag: '/* @jsxFrag F */\n', line: '// @jsx h\n', bare: '/* @jsx */\n', multi: '/**\n * @jsx h\n * @license MIT\n */\n', prose: '// we do not set the @jsx pragma here\n',
